@@ -32,7 +32,9 @@ Definition mat := list vec.
 Definition fixed_F1 : bool := true.   (* Connectivity edges are inputs of their own (keyed by (source node, edge index)) *)
 Definition fixed_F2 : bool := true.   (* post-synaptic variable registered under its own name *)
 Definition fixed_F3 : bool := true.   (* scalar weight + coupling template -> full weight matrix *)
+Definition fixed_F5 : bool := false.  (* coupling template on a one-row / one-column matrix: reshape-based broadcasts, total sum for one target *)
 Definition fixed_F6 : bool := true.   (* one input name per variable inside an in-edge operator *)
+Definition fixed_F7 : bool := false.  (* delayed source of one unit read as a scalar *)
 Definition fixed_F8 : bool := true.   (* one ring buffer per delayed Connectivity *)
 
 Definition mkq (num : Z) (den : positive) : Qc := Q2Qc (num # den).
@@ -209,6 +211,7 @@ Definition same_route (c1 c2 : conn) : bool :=
 Fixpoint dup_sources (l : list conn) : bool :=
   match l with [] => false | c :: l' => existsb (same_route c) l' || dup_sources l' end.
 Definition cpl_bad_shape (c : conn) : bool :=
+  negb fixed_F5 &&
   match cw c, ccpl c with
   | WMat _, CPlain => false
   | WMat W, _ => (length W =? 1)%nat || (ncols W =? 1)%nat
@@ -228,7 +231,7 @@ Definition alias (N : popnet) : bool :=
 Definition has_delay (c : conn) : bool := negb (eff_delay (cdelay c) =? 0)%nat.
 (* a delayed (1 x 1) matrix: the buffered source is a (1,) array that is assigned to a scalar slot (ValueError) *)
 Definition delay_1x1 (c : conn) : bool :=
-  has_delay c && match cw c with WMat W => (length W =? 1)%nat && (ncols W =? 1)%nat | WScal _ => false end.
+  negb fixed_F7 && has_delay c && match cw c with WMat W => (length W =? 1)%nat && (ncols W =? 1)%nat | WScal _ => false end.
 Definition loud (N : popnet) : bool :=
   (negb fixed_F1 && dup_sources (conns N)) || alias N ||
   existsb (fun c => cpl_bad_shape c || delay_1x1 c ||
